@@ -101,6 +101,19 @@ Theorem C12_iteration_reports_the_exact_value : forall zt osort,
     In mov ms /\ negamax zt F mov (d - 1) 1 t = Some x /\ - x = A.
 Proof. exact root_iteration_value. Qed.
 
+(* the whole unlimited search (get_best_move with expiry index None): the LAST score it reports for each of the
+   depths 1, 2, 3 is the exact plain value of the position at that depth - the maximum over the generated moves
+   of minus the child's negamax value (given within height F <= 99).  Under an allowance the reports are a
+   prefix of these (C07_prefix), so a timed search that went on to a deeper iteration has reported this value. *)
+Theorem C12_last_score_of_each_depth_is_exact : forall zt osort,
+  (forall i l, Permutation l (osort i l)) ->
+  forall fuel b t evs s, dt_nonneg t -> get_best_move zt osort None fuel b t = Ok (evs, s) ->
+  forall d e A, 1 <= d <= 3 -> RootDraw.newest_info d (rev evs) = Some e ->
+  (exists F ws, 1 + Z.of_nat F <= 100 /\
+     Forall2 (fun m x => negamax zt F m (d - 1) 1 t = Some x) (generate_moves zt b AllMoves) ws /\ is_max A (map Z.opp ws)) ->
+  e = A.
+Proof. exact unlimited_scores_exact. Qed.
+
 Theorem C12_pv_mark_changes_ordering_field_only : forall best l, Forall2 same_move (mark_pv best l) l.
 Proof. exact mark_pv_same. Qed.
 
@@ -126,6 +139,7 @@ Print Assumptions C12_value_ignores_the_ordering_field.
 Print Assumptions C12_search_honours_the_window.
 Print Assumptions C12_quiescence_is_the_clamped_value.
 Print Assumptions C12_iteration_reports_the_exact_value.
+Print Assumptions C12_last_score_of_each_depth_is_exact.
 Print Assumptions C12_pv_mark_changes_ordering_field_only.
 Print Assumptions C12_oracle_is_minimax.
 Print Assumptions C12_oracle_answers.
